@@ -11,8 +11,14 @@ import (
 	"fmt"
 	"math"
 	"os"
+	"runtime/debug"
 	"time"
 )
+
+// ReadBuildInfo is what debug.ReadBuildInfo returns under the engine (fixed build).
+func ReadBuildInfo() (*debug.BuildInfo, bool) {
+	return &debug.BuildInfo{GoVersion: "go1.23.5", Path: "example.com/cmd/prog", Main: debug.Module{Path: "example.com/cmd", Version: "v1.2.3"}}, true
+}
 
 type RuntimeError string
 
